@@ -251,8 +251,10 @@ def random_scenario(rng, n):
                 ks.append(a)
             g.add(S("addpeer", keys=ks, nowait=rng.random() < 0.6))
         elif c < 0.63:
-            k0 = 1000 + g.k * 10
-            g.add(S("flood", key=k0, ip=100 + rng.randrange(0, 60), cls=rng.choice(["good", "silent", "half"]), id=k0, n=rng.randint(2, 5)))
+            n = rng.randint(2, 5)
+            k0 = g.k + 1
+            g.k += n
+            g.add(S("flood", key=k0, ip=100 + rng.randrange(0, 60), cls=rng.choice(["good", "silent", "half"]), id=1000 + k0, n=n))
         elif c < 0.71:
             g.add(S("closepeers", n=rng.randint(1, 2)))
         elif c < 0.80:
@@ -458,7 +460,10 @@ def signature(tag, evs, pos, info):
 # ----------------------------------------------------------------------------------------------- run / judge
 
 def run_and_judge(ctx, drv, scen, nproc, label):
-    raws, crashed = xc.run_scenarios(ctx, drv, scen, nproc=nproc, per_timeout=60, flag="-scenarios")
+    raws, crashed = xc.run_scenarios(ctx, drv, scen, nproc=nproc, per_timeout=25, flag="-scenarios")
+    for c in crashed:      # the driver's own failures are never a verdict about the client
+        if c["rc"] == -9 or "x03 driver" in (c["panic"] or ""):
+            raise vlib.MachineryError("driver failure in scenario %s (%s): rc=%s %s\n%s" % (c["id"], c["scenario"].get("fam"), c["rc"], c["panic"], c["stderr_tail"][-1500:]))
     crash_site = {c["id"]: (c["panic"] or "exit %s" % c["rc"]) for c in crashed}
     proj = {}
     for rp in raws:
